@@ -200,12 +200,20 @@ def gen_port(rng):
                               b"4294967377", b"18446744073709551696"])
 
 
-def gen_userinfo(rng):
+def gen_userinfo(rng, backslash=False):
+    """backslash=True (non-special schemes, references): a '\\' may stay in the credentials - it is ordinary userinfo
+    there (encoded as %5C), while under a special scheme it ends the authority"""
     r = rng.random()
     if r < 0.6:
         return b""
     u = rbytes(rng, rng.randrange(0, 6), alphabet=b"abcUSER%41:@;=[]|^ /\\?#\x7f\xc3\xa9")
-    u = u.replace(b"/", b"").replace(b"?", b"").replace(b"#", b"").replace(b"\\", b"")
+    u = u.replace(b"/", b"").replace(b"?", b"").replace(b"#", b"")
+    if backslash and rng.random() < 0.5:
+        if b"\\" not in u and rng.random() < 0.5:
+            k = rng.randrange(len(u) + 1)
+            u = u[:k] + b"\\" + u[k:]
+    else:
+        u = u.replace(b"\\", b"")
     return u + b"@"
 
 
@@ -272,7 +280,7 @@ def gen_absolute(rng):
         sc = rng.choice(NONSPECIAL)
         k = rng.random()
         if k < 0.45:
-            return sc + b"://" + gen_userinfo(rng) + gen_host(rng) + gen_port(rng) + tail()
+            return sc + b"://" + gen_userinfo(rng, backslash=True) + gen_host(rng) + gen_port(rng) + tail()
         if k < 0.65:
             return sc + b":" + gen_path(rng) + gen_query(rng) + gen_fragment(rng)
         op = rbytes(rng, rng.randrange(0, 10), alphabet=b"abc d\x7f%41\xc3\xa9/:@")
@@ -296,7 +304,7 @@ def gen_reference(rng):
     if r < 0.45:
         return gen_path(rng) + gen_query(rng) + gen_fragment(rng)
     if r < 0.55:
-        return rng.choice([b"//", b"\\\\", b"/\\", b"\\/"]) + gen_userinfo(rng) + gen_host(rng) + gen_port(rng) + gen_path(rng) + gen_query(rng)
+        return rng.choice([b"//", b"\\\\", b"/\\", b"\\/"]) + gen_userinfo(rng, backslash=True) + gen_host(rng) + gen_port(rng) + gen_path(rng) + gen_query(rng)
     if r < 0.65:
         return rng.choice([b"..", b"../", b"../..", b"./", b".", b"%2e%2e/x", b"../../../x", b"C:", b"C:/x", b"c|/", b"/C:/", b"/c|", b"\\C:\\x", b"//C:/"]) + gen_query(rng)
     if r < 0.75:
